@@ -62,6 +62,14 @@ def execute(p, ch):
         else:
             from indi.transport.server.tty import ConnectionHandler
 
+            if tr == "mixed":
+                # TCP connections and the TTY channel registered in the same router
+                from indi.transport.server.tcp import ConnectionHandler as TcpHandler
+
+                for i in range(n):
+                    ep = V.Endpoint(loop, "s%d" % i)
+                    eps.append(ep)
+                    handlers.append(TcpHandler(ep.reader, ep.writer, router))
             ctl = V.CtlExecutor()
             sink = io.StringIO()
             stdin = V.aio_text(V.LineSource(), loop, V.CtlExecutor())
@@ -118,6 +126,8 @@ def execute(p, ch):
         obs["paused_at_end"] = list(paused)
         if tr == "tty":
             obs["out"] = [sink.getvalue()]
+        elif tr == "mixed":
+            obs["out"] = [ep.written().decode("latin1") for ep in eps] + [sink.getvalue()]
         else:
             obs["out"] = [ep.written().decode("latin1") for ep in eps]
         obs["errors"] = [e.get("message") for e in loop.collect_errors()]
@@ -173,6 +183,11 @@ def configs(tier):
             out.append(dict(transport="tcp-server", nconn=2, burst=3, toggles=2, victim=victim))
         out.append(dict(transport="tcp-server", nconn=3, burst=2, toggles=2, victim=0))
         out.append(dict(transport="tcp-server", nconn=3, burst=3, toggles=1, victim=2))
+        out.append(dict(transport="mixed", nconn=1, burst=2, toggles=1, victim=0, W=2))
+        out.append(dict(transport="mixed", nconn=1, burst=3, toggles=1, victim=None, W=2))
+        out.append(dict(transport="mixed", nconn=2, burst=2, toggles=1, victim=1, W=2))
+        out.append(dict(transport="tcp-server", nconn=1, burst=5, toggles=2, victim=None))
+        out.append(dict(transport="tcp-client", nconn=1, burst=5, toggles=2, victim=None))
     else:
         for burst in (1, 2, 3, 4, 5):
             out.append(dict(transport="tcp-server", nconn=1, burst=burst, toggles=4, victim=None))
@@ -186,6 +201,10 @@ def configs(tier):
         for victim in (None, 0, 2):
             out.append(dict(transport="tcp-server", nconn=3, burst=2, toggles=3, victim=victim))
             out.append(dict(transport="tcp-server", nconn=3, burst=3, toggles=2, victim=victim))
+        for burst in (2, 3):
+            for victim in (None, 0):
+                out.append(dict(transport="mixed", nconn=1, burst=burst, toggles=2, victim=victim, W=2))
+                out.append(dict(transport="mixed", nconn=2, burst=burst, toggles=1, victim=victim, W=3))
     return out
 
 
